@@ -1,8 +1,7 @@
 //! C04 — arity guards and index binding of the flat form: for a `FlatEx` over two variable names
-//! whose single node is `Var(1)`, and value slices of every length 0..=4 (enumerated concretely,
-//! values symbolic): `eval` / `eval_vec` / `eval_iter` are `Err` iff the length is not 2,
-//! `eval_relaxed` is `Err` iff it is below 2, and an `Ok` result is exactly the value at the
-//! node's index — never another one and never a panic.
+//! whose single node is a symbolic variable index, and value slices of symbolic length 0..=4 with
+//! symbolic values: `eval` is `Err` iff the length is not 2, `eval_relaxed` is `Err` iff it is below
+//! 2, and an `Ok` result is exactly the value at the node's index — never another one, never a panic.
 #[allow(unused_imports)]
 use crate::src::Src;
 use exmex::prelude::*;
@@ -10,28 +9,31 @@ use exmex::verif_hooks::*;
 use exmex::FlatEx;
 use smallvec::smallvec;
 
-harness!(arity_guards, unwind = 8, |s| {
+fn one_node(var: usize) -> FlatEx<i32, DummyOps> {
+    let nodes = smallvec![FlatNode { kind: FlatNodeKind::Var(var), unary_op: UnaryOp::new() }];
+    FlatEx::new(nodes, smallvec![], smallvec![], smallvec![String::new(), String::new()], String::new())
+}
+harness!(arity_eval, unwind = 8, |s| {
     let vals = [s.i32(), s.i32(), s.i32(), s.i32()];
     let var = s.choice(2) as usize;
-    for k in 0..5usize {
-        let nodes = smallvec![FlatNode { kind: FlatNodeKind::Var(var), unary_op: UnaryOp::new() }];
-        let ex: FlatEx<i32, DummyOps> = FlatEx::new(nodes, smallvec![], smallvec![], smallvec![String::new(), String::new()], String::new());
-        let slice = &vals[..k.min(4)];
-        let slice: &[i32] = if k == 4 { &vals[..] } else { slice };
-        let r = ex.eval(slice);
-        assert!(r.is_err() == (k != 2), "C04 eval with the wrong number of values is an error, with the right number it is not");
-        if let Ok(v) = &r { assert!(*v == vals[var], "C04 the n-th value is bound to the n-th variable"); }
-        let rr = ex.eval_relaxed(slice);
-        assert!(rr.is_err() == (k < 2), "C04 eval_relaxed ignores surplus values and rejects too few");
-        if let Ok(v) = &rr { assert!(*v == vals[var], "C04 eval_relaxed binds the n-th value to the n-th variable"); }
-        let rv = ex.eval_vec(slice.to_vec());
-        assert!(rv.is_err() == (k != 2), "C04 eval_vec with the wrong number of values is an error");
-        if let Ok(v) = &rv { assert!(*v == vals[var], "C04 eval_vec binds the n-th value to the n-th variable"); }
-        let ri = ex.eval_iter(slice.iter().copied());
-        assert!(ri.is_err() == (k != 2), "C04 eval_iter with the wrong number of values is an error");
-        if let Ok(v) = &ri { assert!(*v == vals[var], "C04 eval_iter binds the n-th value to the n-th variable"); }
-        core::mem::forget((r, rr, rv, ri, ex));
-    }
+    let k = s.range_usize(0, 4);
+    let ex = one_node(var);
+    let r = ex.eval(&vals[..k]);
+    assert!(r.is_err() == (k != 2), "C04 eval with the wrong number of values is an error, with the right number it is not");
+    if let Ok(v) = &r { assert!(*v == vals[var], "C04 the n-th value is bound to the n-th variable"); }
+    cover!(s, k == 2, "right number of values");
+    core::mem::forget((r, ex));
+});
+harness!(arity_eval_relaxed, unwind = 8, |s| {
+    let vals = [s.i32(), s.i32(), s.i32(), s.i32()];
+    let var = s.choice(2) as usize;
+    let k = s.range_usize(0, 4);
+    let ex = one_node(var);
+    let rr = ex.eval_relaxed(&vals[..k]);
+    assert!(rr.is_err() == (k < 2), "C04 eval_relaxed ignores surplus values and rejects too few");
+    if let Ok(v) = &rr { assert!(*v == vals[var], "C04 eval_relaxed binds the n-th value to the n-th variable"); }
+    cover!(s, k == 4, "surplus values");
+    core::mem::forget((rr, ex));
 });
 
 #[derive(Clone, Debug)]
@@ -40,16 +42,4 @@ impl exmex::MakeOperators<i32> for DummyOps {
     fn make<'a>() -> Vec<exmex::Operator<'a, i32>> { vec![] }
 }
 
-harness!(var_lookup, unwind = 12, |s| {
-    // find_parsed_vars / find_var_index on concrete token shapes: names are collected without
-    // duplicates, in Rust string order, and looked up by position
-    let _ = s.bool();
-    let toks: [ParsedToken<'static, i32>; 5] = [ParsedToken::Var("b"), ParsedToken::Num(1), ParsedToken::Var("a"), ParsedToken::Var("b"), ParsedToken::Var("B")];
-    let vars = find_parsed_vars(&toks);
-    assert!(vars.len() == 3, "C04 variables are the distinct names");
-    assert!(vars[0] == "B" && vars[1] == "a" && vars[2] == "b", "C04 variables are listed in Rust string order");
-    assert!(find_var_index("a", &vars) == 1 && find_var_index("b", &vars) == 2 && find_var_index("B", &vars) == 0, "C04 a name is looked up by its position in the sorted list");
-    core::mem::forget((vars, toks));
-});
-
-registry!("c04", arity_guards, var_lookup);
+registry!("c04", arity_eval, arity_eval_relaxed);
